@@ -212,13 +212,20 @@ def main(tier, seed):
     n = 300 if tier == "quick" else 3000
     fam += scenarios.fiber_scenarios(random.Random(seed), n, nfib=3) + scenarios.class_scenarios(random.Random(seed), n)
     fam += scenarios.iteration_scenarios(random.Random(seed), n) + scenarios.hashmap_scenarios(random.Random(seed), n)
+    # several runs on ONE interpreter (what a run that died leaves behind - in the fiber it died in and in the fibers that were calling
+    # it - is reachable from later runs only through the closures and fibers stored in globals), module reruns included
+    import mrun
+    fam += scenarios.snippet_scenarios(random.Random(seed + 2), n) + scenarios.module_rerun_scenarios()[::2]
     nfam = 0
     for pid, toks in fam:
-        if isinstance(toks, dict):
-            continue
-        src = yprog.program_src(toks)
         nfam += 1
         for gc in (("never", "always") if tier == "quick" else ("never", "always", "every:3:1")):
+            if isinstance(toks, dict):
+                c = mrun.case_of(["scenario", pid, gc], toks, gc)
+                c.update({"quarantine": True, "events": 1})
+                cases.append(c)
+                continue
+            src = yprog.program_src(toks)
             cases.append({"id": ["scenario", pid, gc], "main": src, "modules": {}, "gc": gc, "quarantine": True, "events": 1, "natives": True})
     rep.coverage["scenario_programs"] = nfam
     from checks import c02
